@@ -68,6 +68,18 @@ def trace(tid, msg, as_bytes=True, rng=None):
             data = FORMS[rng.choice(sorted(FORMS))](prefix)
             if rng.random() < 0.15:
                 aborted_call(rng)
+            if rng.random() < 0.2:
+                # the call before was for a longer frame that starts with this very message (a checksum depends on the
+                # message alone, not on the one before)
+                try:
+                    mod.crc7(bytes(prefix) + bytes([0x5A, msg[0]]))
+                except Exception:  # noqa
+                    pass
+                data = bytes(prefix)
+            elif tid % 97 == 5 and i == len(msg) - 1:
+                # a megabyte of leading zero bytes leaves the register at zero: the checksum of the padded message is
+                # that of the message (long messages are messages too)
+                data = bytes(1 << 20) + bytes(prefix)
         try:
             c = mod.crc7(data)
             if type(c) is not int:
